@@ -62,6 +62,8 @@ type unsupported struct{ msg string }
 func (u unsupported) Error() string { return u.msg }
 
 type FV struct {
+	skolemCount int
+	ixNames map[string]string // names of compound ground index terms
 	curResults []Term // values being returned, while the ghost statements anchored at a return run
 	funcConstNames []string
 	funcCands map[types.Object][]funcCand // locals that only ever hold known functions
@@ -556,6 +558,21 @@ func (fv *FV) query(st *State, extra []string, goal string) string {
 	return b.String()
 }
 
+// goalQuery is query for "prove phi": the goal is skolemised first (skolem.go).
+func (fv *FV) goalQuery(st *State, extra []string, phi string) string {
+	decls, hyps, rest, ok := fv.skolemizeGoal(phi)
+	if !ok || (len(decls) == 0 && len(hyps) == 0) {
+		return fv.query(st, extra, not(phi))
+	}
+	q := fv.query(st, append(append([]string{}, extra...), hyps...), not(rest))
+	// the constants have to be declared before the assertions that use them
+	k := strings.Index(q, "(assert ")
+	if k < 0 {
+		k = len(q)
+	}
+	return q[:k] + strings.Join(decls, "\n") + "\n" + q[k:]
+}
+
 // oblige emits the obligation "under st, phi holds".
 func (fv *FV) oblige(st *State, kind, phi, desc string, tags []string, pos token.Pos) *Obligation {
 	if phi == "true" {
@@ -567,7 +584,7 @@ func (fv *FV) oblige(st *State, kind, phi, desc string, tags []string, pos token
 		p := fv.w.fset.Position(pos)
 		o.Pos = fmt.Sprintf("%s:%d", shortFile(p.Filename), p.Line)
 	}
-	o.Query = fv.query(st, nil, not(phi))
+	o.Query = fv.goalQuery(st, nil, phi)
 	o.CexQuery = o.Query
 	// known-finding region
 	for _, f := range fv.findings {
@@ -577,8 +594,8 @@ func (fv *FV) oblige(st *State, kind, phi, desc string, tags []string, pos token
 			r := fv.spec(env, f.RegionExpr)
 			o.Region = r.S
 			o.Finding = f
-			o.Query = fv.query(st, nil, not(phi)) // unchanged; region query built on demand
-			o.CexQuery = fv.query(st, []string{not(r.S)}, not(phi))
+			o.Query = fv.goalQuery(st, nil, phi) // unchanged; region query built on demand
+			o.CexQuery = fv.goalQuery(st, []string{not(r.S)}, phi)
 		}
 	}
 	o.Vars = fv.modelVars(st)
